@@ -54,6 +54,12 @@ def hygiene():
         # cache is keyed soundly, which is what C07/C16 check
         pass
     vloop.reset_loops()
+    try:
+        from statemachine import registry
+
+        registry._initialized = True  # no django autodiscovery inside the simulation
+    except Exception:
+        pass
 
 
 def digest(trace):
@@ -200,6 +206,16 @@ class Runner:
         sm = self.objs[op["inst"]]["sm"]
         return sm.activate_initial_state()
 
+    def do_activate2(self, op):
+        sm = self.objs[op["inst"]]["sm"]
+        return asyncio.gather(sm.activate_initial_state(), sm.activate_initial_state())
+
+    def do_send2(self, op):
+        sm = self.objs[op["inst"]]["sm"]
+        a = self._trigger(sm, op["a"])
+        b = self._trigger(sm, op["b"])
+        return asyncio.gather(a, b)
+
     def do_add_listener(self, op):
         ent = self.objs[op["inst"]]
         p = self.sc["programs"][ent["prog"]]
@@ -214,6 +230,62 @@ class Runner:
                 ent["listeners"][role] = o
             ls.append(o)
         ent["sm"].add_listener(*ls)
+        return None
+
+    def do_write(self, op):
+        ent = self.objs[op["inst"]]
+        sm = ent["sm"]
+        how = op["how"]
+        v = dec(op["value"])
+        if how == "model":
+            setattr(sm.model, ent["field"], v)
+        elif how == "csv":
+            sm.current_state_value = v
+        elif how == "cs":
+            sm.current_state = getattr(sm, op["state_id"])
+        else:
+            raise HarnessError(f"unknown write {how}")
+        return None
+
+    def do_clone(self, op):
+        import copy
+        import pickle
+
+        ent = self.objs[op["inst"]]
+        sm = ent["sm"]
+        if op["how"] == "deepcopy":
+            c = copy.deepcopy(sm)
+        else:
+            c = pickle.loads(pickle.dumps(sm))
+        tag = op["as"]
+        info = {"model_shared": c.model is sm.model,
+                "listeners_shared": [r for r, o in ent["listeners"].items()
+                                     if any(o is x for x in getattr(c, "_listeners", {}))],
+                "listener_classes": sorted(type(x).__name__ for x in getattr(c, "_listeners", {})),
+                "orig_listener_classes": sorted(type(x).__name__ for x in getattr(sm, "_listeners", {})),
+                "options": {"allow": c.allow_event_without_transition, "state_field": c.state_field,
+                            "start_value": enc(c.start_value)},
+                "orig_options": {"allow": sm.allow_event_without_transition, "state_field": sm.state_field,
+                                 "start_value": enc(sm.start_value)},
+                "extra_attr": getattr(c, "custom_attr", None) == getattr(sm, "custom_attr", None)}
+        SIM.rec(k="clone", i=op["inst"], to=tag, info=info)
+        ent2 = {"sm": c, "model": c.model, "field": ent["field"], "prog": ent["prog"], "listeners": {}}
+        if not info["model_shared"]:
+            try:
+                c.model.__dict__["_sim_tag"] = tag
+            except Exception:
+                pass
+        for x in getattr(c, "_listeners", {}):
+            role = getattr(x, "_sim_role", None)
+            if role is not None and not any(x is o for o in ent["listeners"].values()):
+                x._sim_tag = tag
+                ent2["listeners"][role] = x
+        if c is not sm:
+            c.__dict__["_sim_tag"] = tag
+        self.objs[tag] = ent2
+        SIM.machines[tag] = c
+        SIM.models[tag] = c.model
+        SIM.fields[tag] = ent["field"]
         return None
 
     def do_define(self, op):
@@ -236,13 +308,32 @@ class Runner:
         except Exception as e:
             o["cs_err"] = type(e).__name__
         try:
-            o["field"] = enc(getattr(sm.model, ent["field"], None))
+            # the USER's model object is what is observed (C10: "the model object supplied by the
+            # user is the one used"); the library's default Model only when none was supplied
+            mo = ent.get("model") if ent.get("model") is not None else sm.model
+            o["field"] = enc(getattr(mo, ent["field"], None))
         except Exception as e:
             o["field_err"] = type(e).__name__
         try:
             o["allowed"] = [e.id for e in sm.allowed_events]
         except Exception as e:
             o["allowed_err"] = type(e).__name__
+        if self.sc.get("observe_more"):
+            try:
+                o["events"] = sorted(e.id for e in sm.events)
+            except Exception as e:
+                o["events_err"] = type(e).__name__
+            act = []
+            p = self.sc["programs"][ent["prog"]]
+            for s_ in p["states"]:
+                try:
+                    if getattr(sm, s_["id"]).is_active:
+                        act.append(s_["id"])
+                except Exception as e:
+                    act.append(f"{s_['id']}!{type(e).__name__}")
+            o["active"] = act
+            if ent.get("model") is not None:
+                o["model_is"] = sm.model is ent["model"]
         return o
 
     # ------------------------------------------------------------------ driver
